@@ -57,6 +57,11 @@ pub struct StubState {
     pub default_valid: bool,
     /// quote hashes of every verifyPayment call, in order
     pub calls: Vec<Vec<[u8; 32]>>,
+    /// the contract cannot be asked: 0 = reachable, 1 = HTTP 503, 2 = JSON-RPC error object
+    /// ("execution reverted"), 3 = empty result, 4 = connection closed without a reply
+    pub outage: u8,
+    /// requests that arrived while `outage` was set
+    pub outage_hits: u32,
 }
 
 #[derive(Clone)]
@@ -97,6 +102,8 @@ impl EvmStub {
         s.verdicts.clear();
         s.calls.clear();
         s.default_valid = true;
+        s.outage = 0;
+        s.outage_hits = 0;
     }
 }
 
@@ -128,6 +135,39 @@ fn serve(mut conn: TcpStream, st: Arc<Mutex<StubState>>) {
         }
         let body: Vec<u8> = buf[head_end..head_end + clen].to_vec();
         buf.drain(..head_end + clen);
+        let outage = {
+            let mut s = st.lock().unwrap();
+            if s.outage != 0 {
+                s.outage_hits += 1;
+            }
+            s.outage
+        };
+        match outage {
+            1 => {
+                let b = "service unavailable";
+                let resp = format!("HTTP/1.1 503 Service Unavailable\r\ncontent-type: text/plain\r\ncontent-length: {}\r\nconnection: keep-alive\r\n\r\n{b}", b.len());
+                if conn.write_all(resp.as_bytes()).is_err() {
+                    return;
+                }
+                continue;
+            }
+            2 | 3 => {
+                let v: serde_json::Value = serde_json::from_slice(&body).unwrap_or(serde_json::Value::Null);
+                let id = v.get("id").cloned().unwrap_or(serde_json::json!(1));
+                let reply = if outage == 2 {
+                    serde_json::json!({"jsonrpc": "2.0", "id": id, "error": {"code": 3, "message": "execution reverted"}}).to_string()
+                } else {
+                    serde_json::json!({"jsonrpc": "2.0", "id": id, "result": "0x"}).to_string()
+                };
+                let resp = format!("HTTP/1.1 200 OK\r\ncontent-type: application/json\r\ncontent-length: {}\r\nconnection: keep-alive\r\n\r\n{reply}", reply.len());
+                if conn.write_all(resp.as_bytes()).is_err() {
+                    return;
+                }
+                continue;
+            }
+            4 => return,
+            _ => {}
+        }
         let reply = answer(&body, &st);
         let resp = format!(
             "HTTP/1.1 200 OK\r\ncontent-type: application/json\r\ncontent-length: {}\r\nconnection: keep-alive\r\n\r\n",
